@@ -208,15 +208,52 @@ def _work(chunk):
     return acc
 
 
+def restate_checks(acc):
+    """Nothing about an earlier query may be remembered: query, change the attribute the filter reads (or the hierarchy),
+    query again on the same list object - the second answer is the one for the changed tasks."""
+    F = filters()
+    for pi, pop in enumerate(POPULATIONS):
+        for f in F:
+            attr, suf = attr_of(f[0])
+            if attr in ('id', 'parent_id'):
+                continue
+            w, objs = make_tasks(pop, PARS[1])
+            lst = w.tasks
+            try:
+                first = [objs.index(t) for t in lst(**{f[0]: f[1]})]
+            except Exception:  # noqa
+                continue
+            # rotate the attribute values among the tasks
+            vals = [value(pop, PARS[1], k, attr) for k in range(4)]
+            rot = vals[1:] + vals[:1]
+            try:
+                for k in range(4):
+                    setattr(objs[k], attr, rot[k])
+            except Exception:  # noqa
+                continue
+            exp = [k for k in [objs.index(t) for t in w.tasks] if f[2](rot[k])]
+            acc.count('evaluations')
+            acc.count('requery_after_change')
+            if exp != first:
+                acc.count('nontrivial')
+            case = {'population': pi, 'filter': {f[0]: repr(f[1])}, 'attribute_values_after_change': [repr(v) for v in rot]}
+            for which, l2 in (('same-list-object', lst), ('fresh-list', w.tasks)):
+                got = [objs.index(t) for t in l2(**{f[0]: f[1]})]
+                if got != exp:
+                    acc.violation('C18', f'query/stale-after-attribute-change/{suf or "eq"}/{which}',
+                                  f'after changing {attr}: tasks({f[0]}={f[1]!r}) selected {[g + 1 for g in got]}, reference {[e + 1 for e in exp]}', case)
+
+
 def run(rep):
     global _TIER
     _TIER = rep.tier
     nw = runtime.n_workers()
     k = nw * 2
     runtime.run_chunks(_work, [(i, k) for i in range(k)], rep.acc)
+    restate_checks(rep.acc)
     c = rep.acc.counters
     rep.coverage.update({
-        'evaluations': c['evaluations'], 'distinct_nontrivial': c['nontrivial'],
+        'evaluations': c['evaluations'], 'distinct_nontrivial': c['nontrivial'], 'requery_after_change': c['requery_after_change'],
         'rule': 'two 4-task populations (each attribute present/None/absent/two values) x two hierarchies x every single filter '
                 '(%d: every suffix x every attribute x value alphabet) and %s pairs of filters on different keywords, compared with a '
                 'reference predicate; bulk assignment on every single-filter result; callable / keyword filters through tasks(), '
